@@ -4,7 +4,7 @@ for a key depends on the key and on nothing that changes between calls (routing 
 from vlib import fixtures
 import re
 
-from rules import order
+from rules import order, lru
 from rules.variant import storage_switches, arm_region
 from vlib.mir import Fn, op_local, op_place, rv_operands
 from vlib.run import Broken
@@ -23,7 +23,16 @@ def need(fx, fid):
 
 def run(ctx):
     fx = ctx.facts("default")
-    fixtures.run(ctx, ['order'])
+    fixtures.run(ctx, ['order', 'lru'])
+    # recency: every access to an existing entry moves it to the head; list operations run under the index lock
+    LM = 'containers::specialized::lru_map::LruMap::<K, V, E>::'
+    nt = 0
+    for m in ('get', 'put'):
+        nt += lru.touch(ctx, fx, LM + m, 'containers::specialized::lru_map::LruNode::value')
+    ctx.instance('R-TOUCH.accesses', nt)
+    ctx.floor('R-TOUCH.accesses', 2)
+    lru.list_ops_under_index_lock(ctx, fx, 'src/containers/specialized/lru_map.rs', 'lru_map::LruMap', 'LruMap::hash_map')
+    ctx.floor('R-LOCKCOV.lru.sites', 4)
     ev = need(fx, LM + "evict_lru")
     ctx.analysed_fns.add(ev.id)
     # exactly one callback on every successful path
@@ -137,13 +146,16 @@ def run(ctx):
     ctx.instance("R-FLOW.route.arms", narms)
     ctx.floor("R-FLOW.route.arms", 3)
     return dict(
-        level_note="decides callback/eviction structure of LruMap and routing purity of ConcurrentLruMap; LRU order values, the "
+        level_note="decides callback/eviction structure of LruMap, that get/put refresh recency of the entry they access, that list "
+                   "operations run under the index lock, and routing purity of ConcurrentLruMap; LRU order values, the "
                    "capacity bound, page-cache byte equality and staleness after invalidation are value/history-level and NOT decided",
         explanation="R-ORDER: on every Ok path evict_lru passes through exactly one on_evict, the index removal and the list unlink; "
                     "R-FLOW: the callback's key/value locals are the ones removed/unlinked; who-may-call on_evict; put reaches "
                     "evict_lru only under a len-vs-capacity comparison; R-FLOW.route: per LoadBalancingStrategy arm the shard "
-                    "index uses the key and no thread id / counter / clock.",
-        trusted_base=["rustc nightly MIR", "zfacts", "rules/order.py", "props/C17.py tables"],
+                    "index uses the key and no thread id / counter / clock. R-TOUCH: a move_to_head/insert_head call dominates, or lies on "
+                    "every path to a normal return from, each access to LruNode.value in get/put. R-LOCKCOV.lru: a guard of "
+                    "LruMap.hash_map is live at every LruList operation of the map's methods.",
+        trusted_base=["rustc nightly MIR", "zfacts", "rules/order.py", "rules/lru.py", "rules/sync.py (guard liveness)", "props/C17.py tables"],
         rule_text="obligation = ordering pair | callback entry identity | caller of on_evict | strategy arm",
     )
 
